@@ -37,7 +37,7 @@ func init() {
 	register(&prop{
 		id:    "C16",
 		level: "exploration",
-		rule: "struct: PRNG envelopes with 0-12 messages over tables of 0-4 entries, each index drawn from {valid, -1, len, len+1, MaxInt32, MinInt32}, type names from {registered, unknown, empty}, payloads from {valid, truncated, random}; bytes: valid encodings mutated by bit flips / truncation / splices, and pure random bytes; e2e: the same inputs sent by a hostile dRPC client plus raw TCP garbage to a live node, followed by a probe over a fresh connection. " +
+		rule: "struct: PRNG envelopes with 0-12 messages over tables of 0-4 entries, each index drawn from {valid, -1, len, len+1, MaxInt32, MinInt32}, type names from {registered, unknown, empty}, payloads from {valid, truncated, random}; bytes: valid encodings mutated by bit flips / truncation / splices, and pure random bytes; e2e: the same inputs sent by a hostile dRPC client plus raw TCP garbage to a live node, followed by a probe over a fresh connection, half of them while the node is still dialing a peer that is not there (its stream writer exists but has no connection yet); conc: 2-4 honest connections and a hostile one read side by side by ONE stream reader, each honest connection judged on its own. " +
 			"Every input is saved before use. Non-trivial = the envelope contains at least one out-of-range index, unknown type or undecodable payload; distinct by the multiset of defect kinds and their positions",
 		assumptions: []string{
 			"an invalid SENDER index may lead to no delivery or to a delivery without sender (the statement fixes target and type); it must never lead to another sender",
@@ -53,6 +53,7 @@ func init() {
 				{name: "struct", n: a, perChild: a / 16, timeout: 20 * time.Minute},
 				{name: "bytes", n: b, perChild: b / 16, timeout: 20 * time.Minute},
 				{name: "e2e", n: e, perChild: e / 8, parallel: 8, netns: true, timeout: 20 * time.Minute},
+				{name: "conc", n: 10 * e, perChild: 10 * e / 16, timeout: 20 * time.Minute},
 			}
 		},
 		run: func(c *caseCtx) caseResult {
@@ -61,6 +62,11 @@ func init() {
 				return c16Struct(c)
 			case "bytes":
 				return c16Bytes(c)
+			case "conc":
+				if !exportAvailable {
+					return caseResult{Desc: "conc mode unavailable: the remote export shim does not compile against this tree"}
+				}
+				return c15InternalConc(c, true)
 			default:
 				return c16E2E(c)
 			}
@@ -98,9 +104,21 @@ func hostileEnvelope(r *rand.Rand) (*remote.Envelope, []string) {
 	env := &remote.Envelope{}
 	nT, nS, nN := r.Intn(5), r.Intn(5), r.Intn(5)
 	for i := 0; i < nT; i++ {
+		if r.Intn(25) == 0 {
+			// an Envelope value may hold an empty slot in its tables (the decoder never produces one; the
+			// property quantifies over Envelope values as well)
+			env.Targets = append(env.Targets, nil)
+			defects = append(defects, "nil-target-slot")
+			continue
+		}
 		env.Targets = append(env.Targets, actor.NewPID("node", c16TargetIDs[r.Intn(len(c16TargetIDs))]))
 	}
 	for i := 0; i < nS; i++ {
+		if r.Intn(25) == 0 {
+			env.Senders = append(env.Senders, nil)
+			defects = append(defects, "nil-sender-slot")
+			continue
+		}
 		env.Senders = append(env.Senders, actor.NewPID("peer", fmt.Sprintf("s/%d", i)))
 	}
 	names := []string{"remote.TestMessage", "actor.PID", "actor.Ping", "cluster.Member"}
@@ -520,7 +538,15 @@ func c16E2E(c *caseCtx) (res caseResult) {
 					}
 				}
 				env.Messages = ms
+				for i := range env.Senders {
+					if env.Senders[i] == nil {
+						env.Senders[i] = &actor.PID{} // (an empty slot cannot go over the wire)
+					}
+				}
 				for i := range env.Targets {
+					if env.Targets[i] == nil {
+						env.Targets[i] = &actor.PID{}
+					}
 					env.Targets[i].Address = addrs[0]
 					if r.Intn(3) == 0 {
 						env.Targets[i].ID = writerIDs[r.Intn(len(writerIDs))] // an internal actor of the node
